@@ -235,8 +235,8 @@ func (c *Container) PrependLength() {
 
 // Peek returns the given amount of bytes. Data MAY be copied and IS NOT consumed.
 func (c *Container) Peek(n int) []byte {
-	// Check requested length.
-	if n <= 0 {
+	// Check requested length and if there is any data at all.
+	if n <= 0 || c.offset >= len(c.compartments) {
 		return nil
 	}
 
